@@ -144,6 +144,15 @@ UNPARSER_EXEMPT = {
     ('TableScan', 'statistics_requests'): 'optimizer hint for statistics collection, does not change rows',
     ('Unnest', 'exec_columns'): 'Unnest::try_new computes list_type_columns / struct_type_columns (which the unparser reads) from it: same information',
     ('Unnest', 'dependency_indices'): 'derived by Unnest::try_new from the input schema',
+    # type / metadata annotations: SQL text has no place for them and the SQL planner derives them again from the context
+    ('Alias', 'relation'): 'qualifier of an output column name: no SQL syntax for it; rows and types are unaffected',
+    ('Alias', 'metadata'): 'field metadata is outside "logically equivalent output types" and has no SQL syntax',
+    ('Literal', '1'): 'field metadata of a literal: no SQL syntax, outside "logically equivalent output types"',
+    ('Placeholder', 'field'): 'inferred parameter type: inferred again when the text is planned',
+    ('LambdaVariable', 'field'): 'type of a lambda parameter: derived again by the planner from the lambda argument',
+    ('ScalarVariable', '0'): 'type of a session variable: looked up again through the variable provider',
+    ('OuterReferenceColumn', '0'): 'type of an outer reference: resolved again from the outer query schema',
+    ('Unnest', 'outer'): 'never true in a plan built from SQL: Unnest::new_outer has no caller in the workspace and the SQL planner builds Unnest::new (the property quantifies over plans built from SQL)',
     ('Explain', 'stringified_plans'): 'EXPLAIN is not unparsed',
     ('Explain', 'logical_optimization_succeeded'): 'EXPLAIN is not unparsed',
 }
@@ -163,8 +172,8 @@ def unparser_reads_plan_fields(ctx):
         ctx.lost(rule, 'Unparser::plan_to_sql / Unparser::expr_to_sql_inner')
         return
     n = protocov.check_encoder_reads(ctx, 'LogicalPlan', proot[0], 'datafusion_expr::logical_plan::plan::LogicalPlan', rule=rule, exempt=UNPARSER_EXEMPT,
-                                     follow=UNPARSER_FOLLOW, per_variant=False, follow_derived=True)
-    n += protocov.check_encoder_reads(ctx, 'Expr', eroot[0], 'datafusion_expr::expr::Expr', rule=rule, exempt=UNPARSER_EXEMPT, follow=UNPARSER_FOLLOW, per_variant=False, follow_derived=True)
+                                     follow=UNPARSER_FOLLOW, per_variant=False)
+    n += protocov.check_encoder_reads(ctx, 'Expr', eroot[0], 'datafusion_expr::expr::Expr', rule=rule, exempt=UNPARSER_EXEMPT, follow=UNPARSER_FOLLOW, per_variant=False)
     ctx.floor(rule, 'plan / expression structs the unparser reads', n, 25)
     st = ctx.st
     probe = common.Ctx(ctx.pid, ctx.tier, st, st, {})
